@@ -26,6 +26,7 @@ EXPLANATION = (
     "Numeric values and accounts started with negative initial balances are outside the claim."
     " C02.4 also: nothing can fail between crediting the borrowed amount and registering the loan, the registration post-dominates the commit, and every lending strategy lends exactly the amount requested."
     " C02.3 also reports the update-rule frame table (shared with C06.4): which ledger maps each UpdateRule may read."
+    " C02.2 also: the rule loop dominates every commit of the ledger maps."
 )
 TRUSTED = ["CPython ast parser", "mypy callee/receiver resolution", "sa.cfg statement CFG", "sa.cells", "sa.summaries"]
 
